@@ -206,6 +206,9 @@ HIST_SCRIPTS = [
     ["append3", "append", "delone", "append", "delone", "append", "delone"],
     # a retention bound while the wall clock steps back: the snapshot being committed is not the newest by timestamp
     ["append@1000", "append@2000", "retention:2", "append@3000", "append@500", "append@400", "delcur@400", "append@4000"],
+    # one data file listed by TWO manifests (queued again through the file-level API), then deleted: it must be gone from both
+    ["append", "append", "reappend", "append", "delone", "append"],
+    ["append3", "reappend", "delone", "append"],
     ["prevmax:3", "append@1000", "append@1000", "append@1000", "append@1000", "prevmax:1", "append@1000", "retention:1", "append@900"],
 ]
 
@@ -246,6 +249,17 @@ def _histories(ctx, rep, model_ok):
                             with t.new_transaction() as tx:
                                 for j_ in range(3):
                                     tx.append_data(tablekit.rows(1, start=si * 10 + j_))
+                                tx.commit()
+                            op_tok = f"add:{now}:{next_id}:-"
+                        elif kind == "reappend":
+                            # a file that is ALREADY listed is queued again through the file-level API: two manifests name it afterwards
+                            from datashard.data_structures import DataFile, FileFormat
+                            first = tablekit.data_paths(t)[0]
+                            full_ = os.path.join(path, first)
+                            with t.new_transaction() as tx:
+                                tx.append_files([DataFile(file_path="/" + first, file_format=FileFormat.PARQUET, partition_values={},
+                                                          record_count=len(reader.read_rows(reader.DirStore(path), first)),
+                                                          file_size_in_bytes=os.path.getsize(full_))])
                                 tx.commit()
                             op_tok = f"add:{now}:{next_id}:-"
                         elif kind == "delone":
